@@ -29,7 +29,7 @@ type solverSpec struct {
 }
 
 var solvers = []solverSpec{
-	{"z3-new", func(f string, t int) []string { return []string{"z3-new", fmt.Sprintf("-T:%d", t), f} }},
+	{"z3-new", func(f string, t int) []string { return []string{"z3-new", fmt.Sprintf("-T:%d", t), "auto_config=false", f} }},
 	{"z3", func(f string, t int) []string { return []string{"z3", fmt.Sprintf("-T:%d", t), f} }},
 	{"cvc5", func(f string, t int) []string {
 		return []string{"cvc5", fmt.Sprintf("--tlimit=%d", t*1000), "--full-saturate-quant", f}
@@ -40,6 +40,15 @@ var solvers = []solverSpec{
 		return []string{"z3-new", fmt.Sprintf("-T:%d", t), "smt.auto_config=false", f}
 	}},
 }
+
+var z3NoMBQI = solverSpec{"z3-new-ematch", func(f string, t int) []string {
+	return []string{"z3-new", fmt.Sprintf("-T:%d", t), "smt.mbqi=false", f}
+}}
+
+// z3-new with its automatic configuration, for the stage-2 race. Stage 1 runs z3-new with auto_config=false:
+// on these VCs (quantified heap axioms plus the Real field of the interface datatype) the automatic
+// configuration diverges on goals that plain E-matching decides in milliseconds.
+var z3NewAuto = solverSpec{"z3-new-auto", func(f string, t int) []string { return []string{"z3-new", fmt.Sprintf("-T:%d", t), f} }}
 
 func runSolver(s solverSpec, file string, timeoutS int) (status string, out string, secs float64) {
 	return runSolverCtx(context.Background(), s, file, timeoutS)
@@ -106,8 +115,8 @@ func SolveAll(g *Gen, header string, results []*FnResult, outDir string, par int
 			os.WriteFile(file, []byte(g.ObligationSMT(header, j.r, j.o)), 0o644)
 			sr := &SolveResult{Obl: j.o, Fn: j.r.Key, File: file}
 			short := timeoutS
-			if short > 5 {
-				short = 5
+			if short > 1 {
+				short = 1 // most obligations take z3-new a few hundredths of a second; everything else is raced below
 			}
 			// stage 1: z3-new in its default and in its plain E-matching configuration side by side (one pool
 			// slot); the first "unsat" wins and stops the other
@@ -161,10 +170,18 @@ func SolveAll(g *Gen, header string, results []*FnResult, outDir string, par int
 			if timeoutS > short {
 				cands = append(cands, solvers[0], solvers[3])
 			}
+			rctx, rcancel := context.WithCancel(context.Background())
+			defer rcancel()
 			for _, s := range cands {
 				go func(s solverSpec) {
 					sem <- struct{}{}
-					st, o, secs := runSolver(s, file, timeoutS)
+					st, o, secs := "cancelled", "", 0.0
+					if rctx.Err() == nil {
+						st, o, secs = runSolverCtx(rctx, s, file, timeoutS)
+						if rctx.Err() != nil && st != "unsat" && st != "sat" {
+							st = "cancelled"
+						}
+					}
 					<-sem
 					ch <- res{s, st, o, secs}
 				}(s)
@@ -187,13 +204,70 @@ func SolveAll(g *Gen, header string, results []*FnResult, outDir string, par int
 						sr.Status, sr.Solver, sr.Seconds, sr.Output = r.st, r.s.name, r.secs, r.o
 					}
 				}
+				if r.st == "unsat" {
+					rcancel() // the race is decided: stop the other solvers
+				}
 			}
 			_ = agree
 			out[i] = sr
 		}(i, j)
 	}
 	wg.Wait()
+	retryTimeouts(out, timeoutS)
 	return out
+}
+
+// retryTimeouts gives obligations on which every solver ran out of time a second chance: solver time depends on
+// the load of the machine, and a timeout must not be reported as a failed obligation just because sixteen
+// solver processes (or other jobs) were competing for the cores. At most 40 of them are re-run, four at a time,
+// with three times the timeout and all solvers raced. A genuine failure stays a failure; it only takes longer.
+func retryTimeouts(out []*SolveResult, timeoutS int) {
+	var idx []int
+	for i, r := range out {
+		if r != nil && r.Status == "timeout" {
+			idx = append(idx, i)
+		}
+	}
+	if len(idx) == 0 || len(idx) > 40 {
+		return
+	}
+	sem := make(chan struct{}, 4)
+	var wg sync.WaitGroup
+	for _, i := range idx {
+		wg.Add(1)
+		go func(sr *SolveResult) {
+			defer wg.Done()
+			sem <- struct{}{}
+			defer func() { <-sem }()
+			type res struct {
+				s    solverSpec
+				st   string
+				o    string
+				secs float64
+			}
+			ctx, cancel := context.WithCancel(context.Background())
+			defer cancel()
+			ch := make(chan res, len(solvers))
+			for _, s := range solvers {
+				go func(s solverSpec) {
+					st, o, secs := runSolverCtx(ctx, s, sr.File, 3*timeoutS)
+					ch <- res{s, st, o, secs}
+				}(s)
+			}
+			for range solvers {
+				r := <-ch
+				if ctx.Err() != nil && r.st != "unsat" && r.st != "sat" {
+					r.st = "cancelled"
+				}
+				sr.Tried = append(sr.Tried, fmt.Sprintf("retry-%s:%s:%.2fs", r.s.name, r.st, r.secs))
+				if r.st == "unsat" && sr.Status != "unsat" {
+					sr.Status, sr.Solver, sr.Seconds, sr.Output = r.st, r.s.name, r.secs, r.o
+					cancel()
+				}
+			}
+		}(out[i])
+	}
+	wg.Wait()
 }
 
 func sanitizeFile(s string) string {
